@@ -521,6 +521,6 @@ def plan(prop, tier):
                 # keys that hold klepto's own marker objects (the placeholder of an ignored argument)
                 add(scenario='pickle', module=m, algo=a, backend='cached_dict', N=4, pickle_after=2, keymap='raw', ignore=['x'])
                 if not q:
-                    add(scenario='pickle', module=m, algo=a, backend='none', N=4, pickle_after=2, keymap='rawnf', ignore=['x'])
+                    add(scenario='pickle', module=m, algo=a, backend='none', N=4, pickle_after=2, keymap='str', ignore=['x'])
         add(scenario='pickle', module='std', algo='lru', backend='none', N=3, pickle_after=1, canary=True)
     return cfgs
